@@ -15,7 +15,7 @@ use simcore::dna;
 use simcore::driver::{guarded, Harness, Tier};
 use simcore::model::kmer_bases;
 use simcore::monitor::{node_kmers_model, Mon};
-use simcore::pipe::base_graph_counts;
+use simcore::pipe::base_graph_for;
 use simcore::rec::{Rec, Violation};
 use simcore::rng::Rng;
 use std::collections::BTreeSet;
@@ -23,6 +23,9 @@ use std::collections::BTreeSet;
 use crate::with_k;
 
 pub const KTYPES: [&str; 8] = ["Kmer4", "Kmer6", "Kmer8", "Kmer16", "Kmer20", "KmerK31", "Kmer32", "Kmer48"];
+
+/// k-mer types below the pipeline's minimum (K >= 4): only reachable through `BaseGraph::add`
+pub const TINY_KTYPES: [&str; 2] = ["Kmer2", "Kmer3"];
 
 #[derive(Clone, Debug, Serialize, Deserialize, PartialEq)]
 pub enum Op {
@@ -36,7 +39,7 @@ pub enum Op {
 pub use simcore::spec::{gen_graph_spec, shrink_graph_spec, GraphSpec};
 
 fn build<K: Kmer>(g: &GraphSpec) -> DebruijnGraph<K, u16> {
-    base_graph_counts::<K>(&g.reads, g.stranded, g.min_count).finish_serial()
+    base_graph_for::<K>(g).finish_serial()
 }
 
 // ------------------------------------------------------------------------------------
@@ -193,7 +196,10 @@ fn run_consumer<K: Kmer + Send + Sync>(c: &ConsumerCase, rec: &mut Rec) -> Resul
         } else {
             rec.count("op_next");
         }
-        let want = if pos + skip < n { Some(sl.model[pos + skip]) } else { None };
+        let want = match pos.checked_add(skip) {
+            Some(t) if t < n => Some(sl.model[t]),
+            _ => None,
+        };
         if want.is_none() {
             if !past_end {
                 rec.count(if skip > 4 && !is_next { "reach_jump_past_end" } else { "reach_step_past_end" });
@@ -279,7 +285,11 @@ fn gen_ops(rng: &mut Rng) -> Vec<Op> {
             8 => Op::NthRel(0),
             9 => Op::NthRel(1),
             10 => Op::NthRel(-1),
-            _ => Op::NthRel(rng.range(2, 70) as i64),
+            _ => match rng.below(6) {
+                0 => Op::Nth(usize::MAX - rng.below(70)),
+                1 => Op::Nth(usize::MAX / 2 + rng.below(5)),
+                _ => Op::NthRel(rng.range(2, 70) as i64),
+            },
         };
         ops.push(op);
     }
@@ -306,7 +316,18 @@ impl Harness for Consumer {
     fn gen(&self, rng: &mut Rng, tier: Tier) -> ConsumerCase {
         // long nodes (hundreds of k-mers, many storage blocks) now and then; more often in the thorough tier
         let long = rng.chance(1, if tier == Tier::Thorough { 40 } else { 400 });
-        let graph = if long { gen_graph_spec(rng, &KTYPES, 4, 1500) } else { gen_graph_spec(rng, &KTYPES, 5, 90) };
+        let mut graph = if long { gen_graph_spec(rng, &KTYPES, 4, 1500) } else { gen_graph_spec(rng, &KTYPES, 5, 90) };
+        if rng.chance(1, 12) {
+            // free-form node set, now and then with a k-mer type below the pipeline's minimum
+            if rng.chance(1, 2) {
+                graph.ktype = rng.pick(&TINY_KTYPES).to_string();
+            }
+            let k = simcore::spec::k_of(&graph.ktype);
+            graph.direct_nodes = simcore::spec::gen_direct_nodes(rng, &graph.reads, k, 12);
+            if graph.direct_nodes.is_empty() {
+                graph.direct_nodes = vec![((0..k + 5).map(|i| ((i * 7 + 1) % 4) as u8).collect(), 0)];
+            }
+        }
         ConsumerCase {
             graph,
             node_sel: if rng.chance(1, 4) { usize::MAX } else { rng.below(1 << 16) },
@@ -321,7 +342,7 @@ impl Harness for Consumer {
     fn run(&self, c: &ConsumerCase, rec: &mut Rec) -> Result<(), Violation> {
         with_k!(
             c.graph.ktype.as_str(),
-            [Kmer4, Kmer6, Kmer8, Kmer16, Kmer20, KmerK31, Kmer32, Kmer48],
+            [Kmer2, Kmer3, Kmer4, Kmer6, Kmer8, Kmer16, Kmer20, KmerK31, Kmer32, Kmer48],
             run_consumer,
             (c, rec)
         )
